@@ -122,6 +122,10 @@ def cases(tier, seed):
         cs.append({'gen': 'solve', 'cls': 'cd', 'N': [rng.randint(4, 9) for _ in range(d)], 'RB': [1] * (d + 1), 'Rb': [1] + [rng.randint(1, 3) for _ in range(d - 1)] + [1], 'rhs': ['random', 'image'][i % 2],
                    'cfac': 1.0, 'conv': [1e-5, 1e-6, 1e-7, 1e-3][i % 4], 'shift': [0.0, 0.1][(i // 4) % 2], 'band': -1, 'eps': [1e-10, 1e-9][(i // 2) % 2], 'vseed': rng.randrange(2 ** 40),
                    'prec': [None, 'c', None, 'r'][(i // 3) % 4], 'max_full': [500, 500, 0][i % 3], 'ls': [1, 2][(i // 2) % 2], 'x0': ['none', 'user'][(i // 6) % 2], 'sidx': 0})
+    # the largest systems of the quantifier (run_big)
+    for i in range(2 if tier == 'quick' else 6):
+        cs.append({'gen': 'solve', 'big': True, 'cls': 'lap', 'N': [12] * 5 if i % 2 == 0 else [12, 11, 12, 10, 12], 'Rb': [1, 4, 4, 4, 4, 1], 'shift': 0.2, 'eps': 1e-10, 'prec': ['r', 'c', None][i % 3],
+                   'vseed': rng.randrange(2 ** 40), 'sidx': 0, 'RB': [1] * 6, 'rhs': 'random', 'cfac': 1.0, 'band': -1, 'max_full': 500, 'ls': 1, 'x0': 'none'})
     # directed (defect #43): tiny right-hand sides with preconditioned GMRES local solves on small Laplacian-like systems - the first local tolerance is far below
     # machine precision relative to the initial local residual
     for i in range(12 if tier == 'quick' else 60):
@@ -234,8 +238,48 @@ def build_system(case, ctx, g):
     return A, b, Am, cond
 
 
+def run_big(case, ctx):
+    """The largest systems of the quantifier (order 5, mode size 12: 248832 unknowns): shifted Laplacian (cond_2 known in closed form), rank-4 right-hand side, default max_full -
+    the interior local systems exceed every size threshold of the local solvers.  No dense matrix: the residual is formed in TT arithmetic (A @ x - b, decided by C03/C04)."""
+    import math as _m
+    import torchtt
+    g = gens.tgen(case['vseed'])
+    N = case['N']
+    d = len(N)
+    dt = torch.float64
+    A = laplace_tt(N, case['shift'], dt)
+    lmin = sum(2 - 2 * _m.cos(_m.pi / (n_ + 1)) for n_ in N) + case['shift']
+    lmax = sum(2 - 2 * _m.cos(n_ * _m.pi / (n_ + 1)) for n_ in N) + case['shift']
+    if not lmax / lmin <= COND_MAX:
+        ctx.count('rejected:cond>1e3')
+        return
+    b = gens.make_tt(N, case['Rb'], dt, 'gauss', g)
+    ctx.count('class:lap')
+    ctx.count('class:largest-systems(12^5)')
+    ctx.count('executions')
+    kw = {'eps': case['eps'], 'use_cpp': False, 'preconditioner': case['prec']}
+    conf = 'prec=%s/max_full=default' % case['prec']
+    key = 'amen_solve/lap-large/' + conf
+    what = 'amen_solve shifted Laplacian N=%s cond2=%.1f rb=%s eps=%.1e %s' % (N, lmax / lmin, case['Rb'], case['eps'], conf)
+    x = ctx.lib('amen_solve', lambda a_, b_: torchtt.solvers.amen_solve(a_, b_, **kw), A, b)
+    if isinstance(x, Raised):
+        ctx.viol(key + '/clause=raises:%s@%s' % (x.type, x.func), '%s raised %r' % (what, x))
+        return
+    if not isinstance(x, torchtt.TT) or x.is_ttm or [int(n_) for n_ in x.N] != list(N):
+        ctx.viol(key + '/clause=shape', '%s: result %s' % (what, hooks.signature(x)))
+        return
+    r = ctx.call('TTM@TT-TT', lambda a_, x_, b_: a_ @ x_ - b_, A, x, b)
+    ratio = float(r.norm()) / float(b.norm()) / case['eps']
+    ctx.metric('residual_over_eps/large', ratio)
+    if not ratio <= C_EPS:
+        ctx.viol(key + '/clause=residual>10eps', '%s: ||Ax-b||/||b|| = %.3g * eps; result ranks %s' % (what, ratio, [int(r_) for r_ in x.R]))
+    ctx.nontrivial(('amen_solve-large', tuple(N), conf, int(math.log10(case['eps']))))
+
+
 def run_case(case, ctx):
     import torchtt
+    if case.get('big'):
+        return run_big(case, ctx)
     g = gens.tgen(case['vseed'])
     A, b, Am, cond = build_system(case, ctx, g)
     N = case['N']
